@@ -111,10 +111,18 @@ class ChangeField(BaseModelFieldMutation):
         if self.field_type is not None:
             field_sig.field_type = self.field_type
 
+        # The target of a relation is tracked on the field signature itself,
+        # not as one of its attributes.
+        new_field_attrs = self.field_attrs.copy()
+        related_model = new_field_attrs.pop('related_model', None)
+
         if field_type_changed:
-            field_sig.field_attrs = self.field_attrs.copy()
+            field_sig.field_attrs = new_field_attrs
         else:
-            field_sig.field_attrs.update(self.field_attrs)
+            field_sig.field_attrs.update(new_field_attrs)
+
+        if related_model is not None:
+            field_sig.related_model = related_model
 
         if ('null' in self.field_attrs and not self.field_attrs['null'] and
             not issubclass(field_sig.field_type, models.ManyToManyField) and
